@@ -1635,7 +1635,24 @@ static void do_source_file(const char *filename_in,
 
    if (did_open)
    {
-      fclose(pfout);
+      // a failed write (disk full, I/O error) must not be renamed over the original
+      bool write_failed = (ferror(pfout) != 0);
+
+      if (fclose(pfout) != 0)
+      {
+         write_failed = true;
+      }
+
+      if (write_failed)
+      {
+         LOG_FMT(LERR, "%s: Failed to write %s\n", __func__, filename_tmp.c_str());
+
+         if (filename_tmp != filename_out)
+         {
+            UNUSED(unlink(filename_tmp.c_str()));
+         }
+         exit(EX_IOERR);
+      }
 
       if (filename_tmp != filename_out)
       {
